@@ -4,7 +4,7 @@ import JunoModel.C16.ProofsMig
 C16 — REGRESSION WITNESSES of defects that were found by this check and are repaired in /repo.
 None of these is an obligation of the property (they are not in `props_modules` / `required_theorems`): they
 describe code variants that /repo no longer contains (`Cfg.fixed = false`: the prune procedure before
-55da2ac; `migZeroNoop = false`: the migration before 322dd0d; `migSkipsMissing = false`: before 3c301f0).
+55da2ac; `migZeroNoop = false`: the migration before 322dd0d; `migSkipsMissing = false`: before 3c301f0; `l2Clamps = false`: `onNewBlock` before 868e51a).
 They are kept — and built — so that the model variants the harness probes (`probeVariant`,
 `probeMigration`: which variant does the code in /repo follow?) stay meaningful: each is the history the
 harness replays on the real code, and would become a finding again if the repair were reverted.
@@ -92,5 +92,53 @@ theorem migration_unchanged_slot_fails_before_3c301f0 :
     (step c (run c St.init ops) (.migrate true)).2 = .err ∧
     answer c (step c (run c St.init ops) (.migrate true)).1 .blockByNumber 4 = .ok ∧
     answer c (step c (run c St.init ops) (.migrate true)).1 .blockByHash 4 = .notfound := by decide
+
+/-! ### stale new-head event, before 868e51a -/
+
+/-- Before 868e51a (`onNewBlock` trusted `block.Number`) the bound by the current head needed a hypothesis: no step raises the floor above
+`current head - retained`, PROVIDED every new-head event names a block that is on the chain when it is
+handled (`Legal (.evL2 n)` for `l2Clamps = false`). What was missing: the two witnesses below. -/
+theorem floor_bound_head_partial_before_868e51a (c : Cfg) (hc : c.l2Clamps = false) (s : St) (op : Op) (R : Reach c s)
+    (L : Legal c s op) : effFloor (step c s op).1 ≤ max (effFloor s) (headBound c s) := by
+  have hb := (step_facts op (inv_reach R) L).floorLe
+  have key : allowed c s op ≤ headBound c s := by
+    cases op with
+    | evL2 n =>
+      obtain ⟨_, hl | ⟨h, hh, hn⟩⟩ := L
+      · rw [hc] at hl; cases hl
+      · simp only [allowed, headBound, hh]; cases s.db.l1 <;> simp only <;> omega
+    | evL1 n => simp only [allowed, headBound]; cases s.db.height <;> simp only <;> omega
+    | migrate u => simp only [allowed, headBound]; cases s.db.height <;> cases s.db.l1 <;> simp only <;> omega
+    | _ => simp only [allowed]; omega
+  omega
+
+/-- 8 blocks, L1 head 9 (ahead of the local head), the head is reverted 7 → 3 while the new-head event of
+block 6 still sits in the pruner's 1-slot feed buffer; retained = 1; `onNewBlock` without the clamp. -/
+def staleCfg : Cfg := { repairedCfg with retained := 1, migSkipsMissing := true, migZeroNoop := true, l2Clamps := false }
+def staleEvent : List Op :=
+  [.crash true, .store, .store, .store, .store, .store, .store, .store, .store, .writeL1 9,
+   .revert, .revert, .revert, .revert, .evL2 6]
+
+/-- Before 868e51a (sig `head-block-pruned-after-stale-event`, now in `fixed`):
+everything before the event is a legal history; the event is handled as if block 6 existed: `pruneUpto(5)`.
+With batch threshold 1 the batches `[0,4)` are written — the HEAD BLOCK 3 is pruned (`Head()` fails, no
+oldest retained block), the floor is above the head — and the next batch fails on the missing block 4. -/
+theorem stale_new_head_event_prunes_head_block_before_868e51a :
+    Reach staleCfg (run staleCfg St.init staleEvent.dropLast) ∧
+    (run staleCfg St.init staleEvent).db.height = some 3 ∧
+    effFloor (run staleCfg St.init staleEvent) = 5 ∧
+    (let s := run staleCfg St.init (staleEvent ++ [.flush 4])
+     answer staleCfg s .blockByNumber 3 = .notfound ∧ oldest s.db = none ∧ (step staleCfg s (.flush 1)).2 = .err) :=
+  ⟨reach_run Reach.init _ (by decide), by decide⟩
+
+/-- Before 868e51a, default batch threshold (sig `shared-floor-above-head-after-stale-event`, now in `fixed`): the one
+batch fails before anything is written, but the shared `RetentionFloor` was already raised to 5: historical
+state at the head (block 3) and one below is refused until the process restarts. -/
+theorem stale_new_head_event_raises_shared_floor_above_head_before_868e51a :
+    (step staleCfg (run staleCfg St.init staleEvent) (.flush 5)).2 = .err ∧
+    (let s := (step staleCfg (run staleCfg St.init staleEvent) (.flush 5)).1
+     lo s.db = 0 ∧ answer staleCfg s .stateAtNumber 3 = .notfound ∧ answer staleCfg s .stateAtNumber 2 = .notfound ∧
+     answer staleCfg s .blockByNumber 3 = .ok) := by decide
+
 
 end Juno.C16.Regress
